@@ -89,6 +89,16 @@ func ExecuteSubscription(p ExecuteParams) chan *Result {
 		})
 	}
 	var resultChannel = make(chan *Result)
+	// send delivers one result unless the context ends first, so a consumer
+	// that stopped reading cannot keep this goroutine alive after cancellation.
+	send := func(r *Result) bool {
+		select {
+		case resultChannel <- r:
+			return true
+		case <-p.Context.Done():
+			return false
+		}
+	}
 	go func() {
 		defer close(resultChannel)
 		defer func() {
@@ -99,9 +109,9 @@ func ExecuteSubscription(p ExecuteParams) chan *Result {
 					// subscription: report it instead of closing silently
 					e = fmt.Errorf("%v", err)
 				}
-				resultChannel <- &Result{
+				send(&Result{
 					Errors: gqlerrors.FormatErrors(e),
-				}
+				})
 			}
 			return
 		}()
@@ -116,18 +126,18 @@ func ExecuteSubscription(p ExecuteParams) chan *Result {
 		})
 
 		if err != nil {
-			resultChannel <- &Result{
+			send(&Result{
 				Errors: gqlerrors.FormatErrors(err),
-			}
+			})
 
 			return
 		}
 
 		operationType, err := getOperationRootType(p.Schema, exeContext.Operation)
 		if err != nil {
-			resultChannel <- &Result{
+			send(&Result{
 				Errors: gqlerrors.FormatErrors(err),
-			}
+			})
 
 			return
 		}
@@ -149,9 +159,9 @@ func ExecuteSubscription(p ExecuteParams) chan *Result {
 		fieldDef := getFieldDef(p.Schema, operationType, fieldName)
 
 		if fieldDef == nil {
-			resultChannel <- &Result{
+			send(&Result{
 				Errors: gqlerrors.FormatErrors(fmt.Errorf("the subscription field %q is not defined", fieldName)),
-			}
+			})
 
 			return
 		}
@@ -159,9 +169,9 @@ func ExecuteSubscription(p ExecuteParams) chan *Result {
 		resolveFn := fieldDef.Subscribe
 
 		if resolveFn == nil {
-			resultChannel <- &Result{
+			send(&Result{
 				Errors: gqlerrors.FormatErrors(fmt.Errorf("the subscription function %q is not defined", fieldName)),
-			}
+			})
 			return
 		}
 		fieldPath := &ResponsePath{
@@ -189,17 +199,17 @@ func ExecuteSubscription(p ExecuteParams) chan *Result {
 			Context: p.Context,
 		})
 		if err != nil {
-			resultChannel <- &Result{
+			send(&Result{
 				Errors: gqlerrors.FormatErrors(err),
-			}
+			})
 
 			return
 		}
 
 		if fieldResult == nil {
-			resultChannel <- &Result{
+			send(&Result{
 				Errors: gqlerrors.FormatErrors(fmt.Errorf("no field result")),
-			}
+			})
 
 			return
 		}
@@ -216,11 +226,13 @@ func ExecuteSubscription(p ExecuteParams) chan *Result {
 					if !more {
 						return
 					}
-					resultChannel <- mapSourceToResponse(res)
+					if !send(mapSourceToResponse(res)) {
+						return
+					}
 				}
 			}
 		default:
-			resultChannel <- mapSourceToResponse(fieldResult)
+			send(mapSourceToResponse(fieldResult))
 			return
 		}
 	}()
